@@ -876,8 +876,13 @@ impl Machine {
             (!obj.data.is_empty()).then_some(Self::get_as::<ClosureIdx>(obj.data[0]))
         });
 
+        // `heap_idx` is about to lose the reference of the frame that created it. If that is the last
+        // reference to the wrapper, nobody can reach the closure any more (every escape goes through
+        // CloneHeap, which retains the wrapper), so it is dropped even when its upvalues were closed
+        // (the scope-exit CloseHeapClosure closes every function-typed local).
+        let last_handle = self.heap.get(heap_idx).is_some_and(|o| o.refcount == 1);
         if let Some(closure_idx) = maybe_closure {
-            if !self.get_closure(closure_idx).is_closed {
+            if !self.get_closure(closure_idx).is_closed || last_handle {
                 self.drop_closure(closure_idx);
             }
         }
